@@ -144,6 +144,64 @@ def collision_worlds():
                     yield 'collideR-G%d-n%d-c%d-e%d' % (G, na, nc, e), ref2, q2, sorted(K + R[lo] - d for d in (d0, d1, d2))
 
 
+def shared_label_dup_worlds():
+    """tandem duplications in which the two copies SHARE a label of the duplicated map: the last label of copy 1 is at the same time the
+    first label of copy 2 (the duplication offset equals a label distance).  The two segments then share a label on BOTH axes, and with
+    one label dropped from each copy (a different one) the overlapping sub-runs have equal label counts but pair different labels."""
+    gaps = [10, 25, 40, 15, 35, 20, 45, 30, 55, 12, 38, 22, 48, 27, 33, 17, 43, 28, 52]       # no two stretches of the map resemble each other
+    base = [0]
+    for g in gaps:
+        base.append(base[-1] + g)
+    a0, a1, b1 = 2, 9, 15
+    for b0 in (7, 8):                                   # copy 1 = labels a0..a1, copy 2 = labels b0..b1; label a1 of copy 1 = label b0 of copy 2
+        D = base[a1] - base[b0]
+        for drop1 in (None, 7, 8):
+            for drop2 in (None, 8, 9, 10):
+                if drop1 is not None and (drop1 < b0 or drop1 == drop2):
+                    continue
+                if drop2 is not None and drop2 <= b0:
+                    continue
+                part1 = [base[i] - base[a0] for i in range(a0, a1 + 1) if i != drop1]
+                part2 = [base[i] - base[a0] + D for i in range(b0, b1 + 1) if i != drop2]
+                dup = sorted(set(part1) | set(part2))
+                if any(y - x < 5 for x, y in zip(dup, dup[1:])):
+                    continue
+                p0 = base[a0]
+                yield 'dupQs-%d-%s-%s' % (b0, drop1, drop2), list(base), dup, [p0 - D - 5, p0 - D, p0 - D + 5, p0 - 5, p0, p0 + 5]
+                ref2 = [100 + x for x in dup]
+                q2 = [base[i] - base[a0] for i in range(a0, b1 + 1)]
+                yield 'dupRs-%d-%s-%s' % (b0, drop1, drop2), ref2, q2, [100 - 5, 100, 100 + 5, 100 + D - 5, 100 + D, 100 + D + 5]
+
+
+def basepair_worlds():
+    """molecules in base pairs with irregular label spacing (as read from a CMAP file): a window of the reference with ONE label
+    missing, an insertion of 1.5-2.5 kb right behind a pair of labels that are about that far apart, and one more label missing just
+    behind the insertion.  The two diagonals then pair the labels around the insertion differently: each of the two segments leaves a
+    different label of the overlap unpaired while they pair the same number of labels there."""
+    ref = [0, 6656, 18115, 30560, 43706, 46629, 52446, 66467, 69170, 75190, 78389, 89717, 98124, 111246, 112971,
+           122730, 133225, 137560, 144471, 156718, 162810, 173483, 183970, 190573, 204208, 214855, 215558, 216594,
+           229639, 240494, 247938, 260566, 265641, 271657, 278776, 287503]
+    # a molecule with sizing noise (found by a seeded-change author's random search, kept as a fixed regression input): the two segments
+    # overlap on reference labels 26-28, the first leaves 26 unpaired, the second 28, both pair two labels there
+    noisy = [0, 10801, 17602, 31646, 42613, 43337, 44404, 57840, 69021, 76688, 89695, 101119, 108451, 117440]
+    yield 'bp-noisy-molecule', list(ref), noisy, [171098 - 968, 171098, 171098 + 968, 173034, 173034 + 968]
+    for s0 in (21, 20):
+        for miss1 in (25, 24):                       # label of the first stretch that the molecule lacks
+            for shared in (27, 26):                  # the molecule label that is at once (shared) on diagonal 1 and (shared - 2) on diagonal 2
+                for miss2 in (shared, shared + 1):   # label that diagonal 2 cannot pair
+                    if not (s0 < miss1 < shared - 1):
+                        continue
+                    first = [ref[i] - ref[s0] for i in range(s0, shared + 1) if i != miss1]
+                    shift = ref[shared] - ref[shared - 2]
+                    second = [ref[i] - ref[s0] + shift for i in range(shared - 1, s0 + 15) if i != miss2]
+                    q = sorted(set(first) | set(second))
+                    if any(y - x < 600 for x, y in zip(q, q[1:])):
+                        continue
+                    d1 = ref[s0]
+                    grid = [d1 - shift - 484, d1 - shift, d1 - shift + 484, d1 - 484, d1, d1 + 484]
+                    yield 'bp-s%d-m%d-sh%d-m%d' % (s0, miss1, shared, miss2), list(ref), q, grid
+
+
 def mirror(q):
     return sorted(q[-1] - p for p in q)
 
@@ -174,7 +232,8 @@ def key(s):
 
 
 SCORING = [(100, 1, -25, 100, 120), (100, 1, -25, 60, 120),     # the second lets one-pair off-diagonal segments exist
-           (100, 1, -25, 100, 120, 0, 0), (100, 1, -25, 60, 120, 0.5, 1)]      # join multiplier 0 (a legal -sj value) / 0.5 with -ss 1
+           (100, 1, -25, 100, 120, 0, 0), (100, 1, -25, 60, 120, 0.5, 1),      # join multiplier 0 (a legal -sj value) / 0.5 with -ss 1
+           (1000, 1, -250, 1000, 1200)]                                         # the CLI defaults, for worlds in base pairs
 
 
 @core.guarded(lambda rpos, qpos, maxd, rev, pk, acc=None, aligner=None, scoring=0: dict(reference=rpos, query=qpos, maxDistance=maxd, reverse=rev, peaks=pk, scoring=scoring))
@@ -262,12 +321,13 @@ def check_case(rpos, qpos, maxd, rev, pk, acc, aligner=None, scoring=0):
 
 
 class Ladders(core.Layer):
-    def __init__(self, name, world_list, kmax, optional=False, scorings=(0, 1)):
+    def __init__(self, name, world_list, kmax, optional=False, scorings=(0, 1), maxds=(4, 6)):
         self.name, self.optional = name, optional
         self.worlds = world_list
         self.kmax = kmax
         self.scorings = scorings
-        self.bounds = dict(worlds=len(world_list), maxDistance=[4, 6], scoring_sp_dp_su_ms_bs_sj_ss=[list(SCORING[i]) for i in scorings], ladder_sizes=[2, kmax], strides=[1, 2, 3],
+        self.maxds = maxds
+        self.bounds = dict(worlds=len(world_list), maxDistance=list(maxds), scoring_sp_dp_su_ms_bs_sj_ss=[list(SCORING[i]) for i in scorings], ladder_sizes=[2, kmax], strides=[1, 2, 3],
                            strand_variants=['+ q', '- mirror(q)', '- q'])
         self.rule = '%d lattice worlds x 2 maxDistance x 3 strand variants x all peak ladders of size 2..%d' % (len(world_list), kmax)
 
@@ -276,7 +336,7 @@ class Ladders(core.Layer):
 
     def run_block(self, b, acc):
         name, rpos, qpos = self.worlds[b // 4][:3]
-        maxd = (4, 6)[b % 2]
+        maxd = self.maxds[b % 2]
         sc = self.scorings[(b // 2) % 2]
         al = make_aligner(maxd, *SCORING[sc])
         lo = -qpos[-1] // 2 // 5 * 5 - 10
@@ -302,8 +362,9 @@ def layers(tier, seed):
     base = list(base_worlds())
     if tier == 'quick':
         return [Ladders('base,k<=4', base, 4), Ladders('base,sj=0|0.5,k<=3', base, 3, scorings=(2, 3)), Ladders('derived/5,k<=3', list(derived_worlds())[::5], 3),
-                Ladders('indel-ladders,k<=3', list(ladder_worlds(False)), 3), Ladders('duplications,k<=3', list(dup_worlds()), 3),
-                Ladders('collisions,k<=3', list(collision_worlds()), 3)]
+                Ladders('indel-ladders,k<=3', list(ladder_worlds(False)), 3), Ladders('duplications,k<=3', list(dup_worlds()) + list(shared_label_dup_worlds()), 3),
+                Ladders('collisions,k<=3', list(collision_worlds()), 3),
+                Ladders('base-pair-scale,k<=3', list(basepair_worlds()), 3, scorings=(4, 4), maxds=(1000, 1500))]
     der = list(derived_worlds())
-    return [Ladders('base,k<=5', base, 5), Ladders('base,sj=0|0.5,k<=4', base, 4, scorings=(2, 3)), Ladders('duplications,sj=0|0.5,k<=3', list(dup_worlds()), 3, scorings=(2, 3)), Ladders('indel-ladders,k<=4', list(ladder_worlds(True)), 4), Ladders('duplications,k<=4', list(dup_worlds()), 4), Ladders('collisions,k<=3', list(collision_worlds()), 3), Ladders('derived,k<=3', der, 3),
+    return [Ladders('base,k<=5', base, 5), Ladders('base,sj=0|0.5,k<=4', base, 4, scorings=(2, 3)), Ladders('duplications,sj=0|0.5,k<=3', list(dup_worlds()), 3, scorings=(2, 3)), Ladders('indel-ladders,k<=4', list(ladder_worlds(True)), 4), Ladders('duplications,k<=4', list(dup_worlds()) + list(shared_label_dup_worlds()), 4), Ladders('collisions,k<=3', list(collision_worlds()), 3), Ladders('base-pair-scale,k<=3', list(basepair_worlds()), 3, scorings=(4, 4), maxds=(1000, 1500)), Ladders('derived,k<=3', der, 3),
             Ladders('derived,k=4', der, 4, optional=True)]
